@@ -92,6 +92,7 @@ var _ = reserr.ErrAccessDenied
 //@   ensures[C08] direct && old(s.direct) >= 256 ==> result != nil && s.direct == old(s.direct)
 //@   ensures[C08] direct && old(s.direct) < 256 ==> result == nil && s.direct == old(s.direct) + 1
 //@   ensures[C08] !direct ==> result == nil && s.direct == old(s.direct) && s.indirect == old(s.indirect) + 1
+//@   ensures result != nil ==> reserr.predErrOK(result)
 //@   assigns s.direct, s.indirect
 //@   safety[C15]
 
@@ -126,7 +127,7 @@ var _ = reserr.ErrAccessDenied
 //@ define predConnOK(c *wsConn) bool = c != nil && c.serv != nil && c.serv.cache != nil
 
 // Well-formedness of the subscription table and cached verdicts (data-structure invariant).
-//@ define predSubsOK(c *wsConn) bool = (!c.disposing ==> c.subs != nil) && (forall r string :: has(c.subs, r) ==> c.subs[r] != nil && c.subs[r].c == c) && predCountsOK() &&
+//@ define predSubsOK(c *wsConn) bool = (!c.disposing ==> c.subs != nil) && (forall x *Subscription :: x.err != nil ==> reserr.predErrOK(x.err)) && (forall r string :: has(c.subs, r) ==> c.subs[r] != nil && c.subs[r].c == c) && predCountsOK() &&
 //@     (forall x *Subscription :: x.access != nil ==> (x.access.Error != nil || x.access.AccessResult != nil))
 
 // Enqueue refuses work once the connection is disposing; otherwise the function is appended to
@@ -197,6 +198,7 @@ var _ = reserr.ErrAccessDenied
 // get: exactly one response; data is released only under a get grant; a failed get leaves no
 // direct subscription behind.
 //@ func (*wsConn).GetResource
+//@   callback cb requires err != nil ==> reserr.predErrOK(err)
 //@   requires predConnOK(c)
 //@   assumes predSubsOK(c)
 //@   resolves[C07] cb exactly-once
@@ -207,12 +209,14 @@ var _ = reserr.ErrAccessDenied
 //@   ensures[C08] err != nil && !old(c.disposing) && old(predCounts(sub)) != 0 ==> sub.direct == old(sub.direct) - 1
 //@   safety[C15]
 //@ closure (*wsConn).GetResource#2
+//@   assumes predSubsOK(c)
 //@   requires[C04] predConnOK(c) && predSubOf(sub, c) && err == nil
 //@   resolves[C07] cb exactly-once
 //@   ensures[C08] old(sub.Error()) != nil && !old(c.disposing) && old(predCounts(sub)) != 0 ==> sub.direct == old(sub.direct) - 1
 //@   safety[C15]
 
 //@ func (*wsConn).SubscribeResource
+//@   callback cb requires err != nil ==> reserr.predErrOK(err)
 //@   requires predConnOK(c)
 //@   assumes predSubsOK(c)
 //@   resolves[C07] cb exactly-once
@@ -223,12 +227,14 @@ var _ = reserr.ErrAccessDenied
 //@   ensures[C08] err != nil && !old(c.disposing) && old(predCounts(sub)) != 0 ==> sub.direct == old(sub.direct) - 1
 //@   safety[C15]
 //@ closure (*wsConn).SubscribeResource#2
+//@   assumes predSubsOK(c)
 //@   requires[C04] predConnOK(c) && predSubOf(sub, c) && err == nil
 //@   resolves[C07] cb exactly-once
 //@   ensures[C08] old(sub.Error()) != nil && !old(c.disposing) && old(predCounts(sub)) != 0 ==> sub.direct == old(sub.direct) - 1
 //@   safety[C15]
 
 //@ func (*wsConn).handleResourceResult
+//@   callback cb requires err != nil ==> reserr.predErrOK(err)
 //@   requires predConnOK(c)
 //@   assumes predSubsOK(c)
 //@   resolves[C07] cb exactly-once
@@ -244,7 +250,8 @@ var _ = reserr.ErrAccessDenied
 //@   safety[C15]
 
 //@ func (*wsConn).handleCallAuthResponse
-//@   requires predConnOK(c)
+//@   callback cb requires err != nil ==> reserr.predErrOK(err)
+//@   requires predConnOK(c) && (err != nil ==> reserr.predErrOK(err))
 //@   assumes predSubsOK(c)
 //@   resolves[C07] cb exactly-once
 //@   safety[C15]
@@ -252,6 +259,7 @@ var _ = reserr.ErrAccessDenied
 // call: forwarded to the service only under a call grant for that method, with the
 // connection's own id and current token.
 //@ func (*wsConn).call
+//@   callback cb requires err != nil ==> reserr.predErrOK(err)
 //@   requires predConnOK(c)
 //@   assumes predSubsOK(c)
 //@   resolves[C07] cb exactly-once
@@ -265,9 +273,11 @@ var _ = reserr.ErrAccessDenied
 //@   requires c != nil
 //@   resolves[C07] cb exactly-once
 //@ closure (*wsConn).call#3
+//@   requires err != nil ==> reserr.predErrOK(err)
 //@   resolves[C07] cb exactly-once
 
 //@ func (*wsConn).CallResource
+//@   callback cb requires err != nil ==> reserr.predErrOK(err)
 //@   requires predConnOK(c)
 //@   assumes predSubsOK(c)
 //@   resolves[C07] cb exactly-once
@@ -277,6 +287,7 @@ var _ = reserr.ErrAccessDenied
 //@   resolves[C07] cb exactly-once
 
 //@ func (*wsConn).NewResource
+//@   callback cb requires err != nil ==> reserr.predErrOK(err)
 //@   requires predConnOK(c)
 //@   assumes predSubsOK(c)
 //@   resolves[C07] cb exactly-once
@@ -287,6 +298,7 @@ var _ = reserr.ErrAccessDenied
 
 // auth: forwarded without an access check, with the connection's own id and current token.
 //@ func (*wsConn).AuthResource
+//@   callback cb requires err != nil ==> reserr.predErrOK(err)
 //@   requires predConnOK(c)
 //@   resolves[C07] cb exactly-once
 //@   assert[C05,C10] c.serv.cache.Auth#1: arg0 == c && arg3 == action && arg4 == c.token && arg5 == params && !arg6
@@ -295,7 +307,7 @@ var _ = reserr.ErrAccessDenied
 //@   requires predConnOK(c)
 //@   resolves[C07] cb exactly-once
 //@ closure (*wsConn).AuthResource#2
-//@   requires predConnOK(c)
+//@   requires predConnOK(c) && (err != nil ==> reserr.predErrOK(err))
 //@   resolves[C07] cb exactly-once
 
 // SpecOriginEq is the executable form of predOriginEq.
